@@ -262,7 +262,8 @@ def mon_implicit_norton(R, libpath, name, g, ncase, spec):
             if lit:
                 # variant whose constants are literals of the generated source: nothing is set at run time
                 theta, eps, A, E = lit["theta"], lit["epsilon"], lit["A"], lit["E"]
-            for k, v in [] if lit else ([("theta", theta), ("epsilon", eps)] + ([] if fixed else [("A", A), ("E", E)])):
+            nj = [("numerical_jacobian_epsilon", 1e-9)] if spec.get("algo") in ("NewtonRaphson_NumericalJacobian", "Broyden", "PowellDogLeg_Broyden") else []
+            for k, v in [] if lit else ([("theta", theta), ("epsilon", eps)] + nj + ([] if fixed else [("A", A), ("E", E)])):
                 if gbnp.set_parameter(lib, name, k, v, hyp=None) != 1:
                     raise RuntimeError("setParameter %s failed" % k)
             s0, eel0, p0, de, szz0 = norton_state(g, b, hyp, young, nu)
